@@ -7,6 +7,7 @@
 #include <cinttypes>
 #include <climits>
 #include <set>
+#include <sys/wait.h>
 
 extern "C"
 {
@@ -27,6 +28,12 @@ extern "C"
     void *igv_upper_bound(const void *, const void *, size_t, size_t, int (*)(const void *, const void *));
     void *igv_lower_bound(const void *, const void *, size_t, size_t, int (*)(const void *, const void *));
     int igv_rand_r(unsigned int *);
+    size_t igv_rand_state_size(void);
+    unsigned long long igv_rand_state(void);
+    int igv_rand_state_unsigned(void);
+    int igv_erange(void);
+    int igv_einval(void);
+    int igv_ctype_bits(int);
 }
 
 using namespace hv;
@@ -120,6 +127,8 @@ static int cmp_keys(int kind, int a, int b)
     case 1: return b - a;                                   // descending
     case 2: return (a / 2 < b / 2) ? -1 : (a / 2 > b / 2);  // classes {2k,2k+1}
     case 3: return 0;                                       // everything equal
+    case 5: return a / 16 - b / 16;                         // large classes: 16 keys each
+    case 6: return (a & 15) - (b & 15);                     // only a part of the key (low nibble) is compared
     default: return a < b ? INT_MIN : a > b ? INT_MAX : 0;  // extreme magnitudes
     }
 }
@@ -134,6 +143,11 @@ static struct
     std::vector<bytes> *orig;
     std::string bad;
     unsigned long calls, pivot_args;
+    const uint8_t *odata;      // big arrays: a copy of the original array and the order of its elements
+    const std::vector<uint32_t> *oord; // (indices sorted by memcmp): logarithmic look-up
+    const uint8_t *pv_ptr;     // last argument outside the array that was verified to be a copy of an element
+    bytes pv_val;
+    const uint8_t *stack_lo;   // lowest frame address seen in a comparator call (recursion depth, tag only)
 } L;
 
 static bool in_array(const void *p)
@@ -160,11 +174,29 @@ static int qs_compar(const void *a, const void *b)
                 return 0; // do not dereference
             }
             L.pivot_args++;
+            if (L.pv_ptr == q && L.pv_val.size() == L.esize && !memcmp(L.pv_val.data(), q, L.esize)) continue;
             bool found = false;
-            for (auto &e : *L.orig)
-                if (!memcmp(e.data(), q, L.esize)) found = true;
+            if (L.oord)
+            {
+                size_t lo = 0, hi = L.oord->size();
+                while (lo < hi)
+                {
+                    size_t mid = lo + (hi - lo) / 2;
+                    int c = memcmp(L.odata + (size_t)(*L.oord)[mid] * L.esize, q, L.esize);
+                    if (c == 0) { found = true; break; }
+                    if (c < 0) lo = mid + 1; else hi = mid;
+                }
+            }
+            else
+                for (auto &e : *L.orig)
+                    if (!memcmp(e.data(), q, L.esize)) found = true;
             if (!found) bad("comparator argument outside the array is not a copy of an element");
+            else { L.pv_ptr = q; L.pv_val.assign(q, q + L.esize); }
         }
+    {
+        const uint8_t *fp = (const uint8_t *)__builtin_frame_address(0);
+        if (!L.stack_lo || fp < L.stack_lo) L.stack_lo = fp;
+    }
     return cmp_keys(L.kind, ((const uint8_t *)a)[0], ((const uint8_t *)b)[0]);
 }
 // bsearch: (key object, array element) in that order; the key object is a
@@ -184,6 +216,74 @@ static int bs_compar(const void *a, const void *b)
     return 1;
 }
 
+// bsearch whose key object is an element of the array itself (aliasing arguments)
+static int bsa_compar(const void *a, const void *b)
+{
+    L.calls++;
+    if (a != L.key) bad("comparator called with something else than the key object as first argument");
+    if (!in_array(b))
+    {
+        bad("comparator called with a pointer outside the array (offset " + std::to_string((long)((const uint8_t *)b - L.base)) + ", nmemb " + std::to_string(L.n) + ")");
+        return 1;
+    }
+    return cmp_keys(L.kind, ((const uint8_t *)L.key)[0], ((const uint8_t *)b)[0]);
+}
+
+// canonical form of a sorted array: inside every maximal run of adjacent
+// elements that compare equal the order is unspecified (qsort is not stable,
+// ISO 7.22.5.2p4) - each run is printed sorted by (key, original index)
+static std::string canon_runs(int kind, std::vector<std::pair<int, int>> el, bool with_idx)
+{
+    size_t n = el.size(), s0 = 0;
+    while (s0 < n)
+    {
+        size_t e = s0 + 1;
+        while (e < n && cmp_keys(kind, el[e - 1].first, el[e].first) == 0) e++;
+        std::sort(el.begin() + s0, el.begin() + e);
+        s0 = e;
+    }
+    std::string r;
+    for (size_t i = 0; i < n; i++)
+    {
+        r += (i ? "," : "") + std::to_string(el[i].first);
+        if (with_idx) r += "." + std::to_string(el[i].second);
+    }
+    return r.empty() ? "-" : r;
+}
+// run-length form of the same for big arrays: keys only
+static std::string canon_rle(int kind, std::vector<int> k)
+{
+    size_t n = k.size(), s0 = 0;
+    while (s0 < n)
+    {
+        size_t e = s0 + 1;
+        while (e < n && cmp_keys(kind, k[e - 1], k[e]) == 0) e++;
+        std::sort(k.begin() + s0, k.begin() + e);
+        s0 = e;
+    }
+    std::string r;
+    for (size_t i = 0; i < n;)
+    {
+        size_t j = i;
+        while (j < n && k[j] == k[i]) j++;
+        r += (i ? "," : "") + std::to_string(k[i]) + "*" + std::to_string(j - i);
+        i = j;
+    }
+    return r.empty() ? "-" : r;
+}
+// the generated arrays of the op `qsg` (the driver computes the same keys)
+static int qsg_key(unsigned shape, uint64_t i, uint64_t n, uint64_t m, uint64_t seed)
+{
+    switch (shape)
+    {
+    case 0: return (int)((((i * 2654435761ull + seed * 40503ull) & 0xffffffffull) >> 16) % m);
+    case 1: return (int)(i * m / n);
+    case 2: return (int)((n - 1 - i) * m / n);
+    case 3: return 7;
+    default: { uint64_t d = i < n - 1 - i ? i : n - 1 - i; uint64_t v = d * 2 * m / n; return (int)(v >= m ? m - 1 : v); }
+    }
+}
+
 static std::vector<int> ints(const std::string &s)
 {
     std::vector<int> v;
@@ -199,6 +299,82 @@ static std::vector<int> ints(const std::string &s)
     return v;
 }
 
+// ------------------------------------------------------------ before main()
+// A few calls made from the constructor of an object with the earliest user
+// init priority: static-initialisation-order dependencies (rand.c's seed is a
+// constant-initialised static; nothing else may need a constructor).
+static char g_premain[1024];          // plain storage: no constructor that could run after the object below
+static const char *g_premain_bad = 0;
+static const int PM_KEYS[9] = {5, 1, 4, 1, 5, 9, 2, 6, 5};
+static int pm_cmp(const void *a, const void *b) { return (int)*(const uint8_t *)a - (int)*(const uint8_t *)b; }
+static int pm_kcmp(const void *k, const void *e) { return *(const int *)k - (int)*(const uint8_t *)e; }
+struct premain_t
+{
+    // The calls run in a forked child: a crash there (sanitizer abort) must not take the whole
+    // harness down before main() - it becomes the result of the op `premain`.
+    premain_t()
+    {
+        int fd[2];
+        if (pipe(fd)) { g_premain_bad = "pipe() failed"; return; }
+        fflush(0);
+        pid_t pid = fork();
+        if (pid == 0)
+        {
+            close(fd[0]);
+            alarm(20);
+            calls();
+            (void)!write(fd[1], g_premain, strlen(g_premain));
+            _exit(g_premain_bad ? 3 : 0);
+        }
+        close(fd[1]);
+        size_t got = 0;
+        ssize_t k;
+        while (got + 1 < sizeof g_premain && (k = read(fd[0], g_premain + got, sizeof g_premain - 1 - got)) > 0) got += (size_t)k;
+        g_premain[got] = 0;
+        close(fd[0]);
+        int status = 0;
+        waitpid(pid, &status, 0);
+        if (!WIFEXITED(status) || WEXITSTATUS(status) != 0)
+        {
+            if (!got) snprintf(g_premain, sizeof g_premain, "crashed-before-main");
+            g_premain_bad = "the calls made before main() (strtol, strtoull, rand, qsort of 9 elements of 3 bytes, bsearch) crashed or gave a wrong result";
+        }
+    }
+    static void calls()
+    {
+        std::string r = "seed0 " + std::to_string(igv_rand_state());
+        r += " rand";
+        for (int i = 0; i < 3; i++) r += " " + std::to_string(igv_rand());
+        char *e = 0;
+        static const char txt[] = " \t-0x7fZ";
+        errno = 0;
+        long v = igv_strtol(txt, &e, 0);
+        r += " strtol " + hexn((uint64_t)v, 16) + " " + std::to_string(e - txt);
+        unsigned long long u = igv_strtoull("18446744073709551616", 0, 10);
+        r += " strtoull " + hexn(u, 16) + (errno == ERANGE ? " ERANGE" : " 0");
+        errno = 0;
+        uint8_t arr[9][3];
+        for (int i = 0; i < 9; i++) { arr[i][0] = (uint8_t)PM_KEYS[i]; arr[i][1] = (uint8_t)i; arr[i][2] = (uint8_t)(PM_KEYS[i] ^ i); }
+        igv_qsort(arr, 9, 3, pm_cmp);   // rand() continues from the state left above
+        std::vector<std::pair<int, int>> el;
+        for (int i = 0; i < 9; i++)
+        {
+            el.emplace_back(arr[i][0], arr[i][1]);
+            if (arr[i][2] != (arr[i][0] ^ arr[i][1])) g_premain_bad = "qsort before main mixed elements";
+            if (i && arr[i - 1][0] > arr[i][0]) g_premain_bad = "qsort before main: not ordered";
+        }
+        r += " qsort " + canon_runs(0, el, true);
+        r += " bsearch";
+        for (int key : {5, 3, 9})
+        {
+            const uint8_t *q = (const uint8_t *)igv_bsearch(&key, arr, 9, 3, pm_kcmp);
+            r += q ? " found(" + std::to_string(q[0]) + ")" : std::string(" null");
+        }
+        snprintf(g_premain, sizeof g_premain, "%s", r.c_str());
+    }
+};
+static premain_t g_premain_obj __attribute__((init_priority(101)));
+
 // ------------------------------------------------------------ run
 static void run_op(const std::vector<std::string> &w, const std::string &, out &o)
 {
@@ -208,12 +384,22 @@ static void run_op(const std::vector<std::string> &w, const std::string &, out &
         o.result = std::to_string(8 * sizeof(long)) + " " + std::to_string(8 * sizeof(long long)) + " " + std::to_string(8 * sizeof(intmax_t)) + " " + std::to_string(8 * sizeof(int));
         return;
     }
-    if (op == "st")
+    if (op == "st" || op == "stL")
     {
         // st <fn> <base> <hextext>
+        // stL <fn> <base> <prefix> <unit> <count> <tail>: text = prefix + unit x count + tail (long texts)
         const std::string &fn = w[1];
         int base = atoi(w[2].c_str());
         bytes t = unhex(w[3]);
+        if (op == "stL")
+        {
+            bytes unit = unhex(w[4]), tail = unhex(w[6]);
+            size_t cnt = strtoul(w[5].c_str(), 0, 10);
+            t.reserve(t.size() + unit.size() * cnt + tail.size());
+            for (size_t i = 0; i < cnt; i++) t.insert(t.end(), unit.begin(), unit.end());
+            t.insert(t.end(), tail.begin(), tail.end());
+            o.tag(t.size() >= 300 * 1024 ? "text>=300KiB" : "text-long");
+        }
         bytes z = t;
         z.push_back(0);
         exact_buf b(z);
@@ -331,6 +517,8 @@ static void run_op(const std::vector<std::string> &w, const std::string &, out &
         bool l = w[1] == "l";
         uint64_t v = l ? (uint64_t)igv_atol(s) : (uint64_t)(uint32_t)igv_atoi(s);
         o.result = hexn(v, l ? 16 : 8);
+        if (!l && p.conv && (p.mag > (u128)INT_MAX + (p.neg ? 1 : 0)))
+            o.result = "unrepresentable"; // ISO 7.22.1.2: undefined - the value is NOT part of the observable
         __int128 val = p.conv ? (p.neg ? -(__int128)p.mag : (__int128)p.mag) : 0;
         bool repr = l ? (val >= INT64_MIN && val <= INT64_MAX) : (val >= INT_MIN && val <= INT_MAX);
         if (repr)
@@ -349,9 +537,9 @@ static void run_op(const std::vector<std::string> &w, const std::string &, out &
             // glibc's atoi is (int) strtol(...) as well, gcc truncates on both sides
             if (!l && val >= INT64_MIN && val <= INT64_MAX)
             {
+                // (not an oracle clause: the property cannot state anything about an undefined call)
                 uint64_t h = (uint64_t)(uint32_t)atoi(s);
-                if (h != v) o.fail("host glibc atoi (truncation of a long): " + hexn(h, 8));
-                o.tag("atoi-truncated");
+                o.tag(h == v ? "atoi-truncated-like-glibc" : "atoi-unrepresentable-differs-from-glibc");
             }
             o.tag("unrepresentable(undefined-in-ISO)");
         }
@@ -363,10 +551,14 @@ static void run_op(const std::vector<std::string> &w, const std::string &, out &
         igv_srand((unsigned)strtoul(w[1].c_str(), 0, 10));
         int n = atoi(w[2].c_str());
         std::string r;
+        uint64_t ref = (unsigned)strtoul(w[1].c_str(), 0, 10);
         for (int i = 0; i < n; i++)
         {
             int x = igv_rand();
             if (x < 0) o.fail("rand() < 0");
+            // the generator rand.c documents ("linear random generator"), evaluated independently in 64 bits
+            ref = ((ref * 16546134871ull + 513585871ull) & 0xffffffffull) % 204814687ull;
+            if ((uint64_t)x != ref / 2) o.fail("rand(): call " + std::to_string(i + 1) + " after srand(" + w[1] + ") returned " + std::to_string(x) + ", the linear congruential generator of rand.c gives " + std::to_string(ref / 2));
             r += (i ? "," : "") + std::to_string(x);
         }
         o.result = r.empty() ? "-" : r;
@@ -379,10 +571,13 @@ static void run_op(const std::vector<std::string> &w, const std::string &, out &
         unsigned sd = (unsigned)strtoul(w[1].c_str(), 0, 10);
         int n = atoi(w[2].c_str());
         std::string r;
+        uint64_t ref = sd;
         for (int i = 0; i < n; i++)
         {
             int x = igv_rand_r(&sd);
             if (x < 0) o.fail("rand_r() < 0");
+            ref = ((ref * 16546134871ull + 513585871ull) & 0xffffffffull) % 204814687ull;
+            if ((uint64_t)x != ref / 2 || sd != ref) o.fail("rand_r(): call " + std::to_string(i + 1) + " returned " + std::to_string(x) + " / left " + std::to_string(sd) + ", the generator of rand.c gives " + std::to_string(ref / 2) + " / " + std::to_string(ref));
             r += (i ? "," : "") + std::to_string(x);
         }
         o.result = r.empty() ? "-" : r;
@@ -443,20 +638,23 @@ static void run_op(const std::vector<std::string> &w, const std::string &, out &
             orig.emplace_back(a.p + i * esize, a.p + (i + 1) * esize);
         }
         L = {kind, a.p, n, esize, nullptr, &orig, "", 0, 0};
+        const uint8_t *fp0 = (const uint8_t *)__builtin_frame_address(0);
         igv_srand(seed);
         igv_qsort(a.p, n, esize, qs_compar);
-        std::string r;
         std::vector<bytes> now;
+        std::vector<std::pair<int, int>> el;
         for (size_t i = 0; i < n; i++)
         {
             const uint8_t *e = a.p + i * esize;
             now.emplace_back(e, e + esize);
-            r += (i ? "," : "") + std::to_string(e[0]);
-            if (esize > 1) r += "." + std::to_string(e[1]);
+            el.emplace_back(e[0], esize > 1 ? e[1] : 0);
             if (!elem_intact(e, esize)) o.fail("element " + std::to_string(i) + " is a mixture of bytes of different elements");
         }
-        o.result = r.empty() ? "-" : r;
+        // the property fixes the order of the comparator classes and the multiset, not the
+        // arrangement inside a class: the result is the canonical form (runs of equal elements sorted)
+        o.result = canon_runs(kind, el, esize > 1);
         if (!L.bad.empty()) o.fail(L.bad);
+        if (L.stack_lo && n >= 64 && (size_t)(fp0 - L.stack_lo) >= n * 96) o.tag("recursion-depth~nmemb");
         for (size_t i = 0; i + 1 < n; i++)
             if (cmp_keys(kind, now[i + 1][0], now[i][0]) < 0)
             {
@@ -472,23 +670,38 @@ static void run_op(const std::vector<std::string> &w, const std::string &, out &
         if (n >= 16) o.tag("deep");
         if (std::set<int>(keys.begin(), keys.end()).size() < n) o.tag("dups");
         if (esize > 1 && esize != 4 && esize != 8) o.tag("odd-size");
+        if (esize > 32) o.tag("size>32");
+        if (kind >= 5) o.tag(kind == 5 ? "cmp-large-classes" : "cmp-partial-key");
         return;
     }
-    if (op == "bs")
+    if (op == "bs" || op == "bsa")
     {
         // bs <esize> <cmpkind> <key> <k0,k1,...>   (array already ordered for cmpkind)
+        // bsa <esize> <cmpkind> <index> <k0,k1,...>: the key object IS element <index> of the array
+        bool alias = op == "bsa";
         unsigned esize = atoi(w[1].c_str());
         int kind = atoi(w[2].c_str());
-        int key = atoi(w[3].c_str());
+        int w3 = atoi(w[3].c_str());
         std::vector<int> keys = ints(w[4]);
         size_t n = keys.size();
-        // empty array: base is the one-past-the-end address of an allocation
-        exact_buf a(n * esize, n ? 0 : 16);
+        if (alias && (w3 < 0 || (size_t)w3 >= n)) { o.result = "bad-op"; return; }
+        int key = alias ? keys[w3] : w3;
+        // empty array: base is the one-past-the-end address of an allocation (a read of base[0] is
+        // seen by ASan) or, for odd keys, the start of one (a read of base[-1] is seen)
+        exact_buf a(n * esize, n || (key & 1) ? 0 : 16);
         for (size_t i = 0; i < n; i++) put_elem(a.p + i * esize, esize, keys[i], (unsigned)i);
         exact_buf kb(sizeof(int));
         memcpy(kb.p, &key, sizeof key);
         L = {kind, a.p, n, esize, kb.p, nullptr, "", 0, 0};
-        const uint8_t *r = (const uint8_t *)igv_bsearch(kb.p, a.p, n, esize, bs_compar);
+        const uint8_t *r;
+        if (alias)
+        {
+            L.key = a.p + (size_t)w3 * esize;
+            r = (const uint8_t *)igv_bsearch(L.key, a.p, n, esize, bsa_compar);
+            o.tag("key-inside-array");
+        }
+        else
+            r = (const uint8_t *)igv_bsearch(kb.p, a.p, n, esize, bs_compar);
         bool exists = false;
         for (size_t i = 0; i < n; i++)
             if (cmp_keys(kind, key, keys[i]) == 0) exists = true;
@@ -505,14 +718,211 @@ static void run_op(const std::vector<std::string> &w, const std::string &, out &
         else
         {
             size_t i = (size_t)(r - a.p) / esize;
-            o.result = std::to_string(i);
+            // WHICH of several equal elements is returned is unspecified (ISO 7.22.5.1p4): the
+            // result is the run of elements comparing equal to the key that contains the returned one
+            size_t lo = i, hi = i;
+            while (lo > 0 && cmp_keys(kind, key, keys[lo - 1]) == 0) lo--;
+            while (hi + 1 < n && cmp_keys(kind, key, keys[hi + 1]) == 0) hi++;
+            o.result = "found " + std::to_string(lo) + ".." + std::to_string(hi);
             if (cmp_keys(kind, key, keys[i]) != 0) o.fail("returned element does not compare equal to the key");
+            if (hi > lo) o.tag("equal-run");
         }
         if (!L.bad.empty()) o.fail(L.bad);
         if (n == 0) o.tag("empty");
         o.tag(exists ? "present" : "absent");
         if (std::set<int>(keys.begin(), keys.end()).size() < n) o.tag("dups");
         if (n >= 8) o.tag("deep");
+        return;
+    }
+    if (op == "qsg")
+    {
+        // qsg <esize> <cmpkind> <seed> <n> <shape> <m>: a generated array (qsg_key), big lengths
+        unsigned esize = atoi(w[1].c_str());
+        int kind = atoi(w[2].c_str());
+        unsigned seed = (unsigned)strtoul(w[3].c_str(), 0, 10);
+        size_t n = strtoul(w[4].c_str(), 0, 10);
+        unsigned shape = atoi(w[5].c_str());
+        uint64_t m = strtoul(w[6].c_str(), 0, 10);
+        if (m == 0 || m > 256 || esize == 0) { o.result = "bad-op"; return; }
+        if (n >= 100000) arm(15); // a long array is allowed more than the 3 s of CPU time of an ordinary op (unoptimised coverage build)
+        exact_buf a(n * esize);
+        for (size_t i = 0; i < n; i++) put_elem(a.p + i * esize, esize, (unsigned)qsg_key(shape, i, n, m, seed), (unsigned)(i & 255));
+        bytes before(a.p, a.p + n * esize);
+        auto order_of = [&](const uint8_t *d) {
+            std::vector<uint32_t> ord(n);
+            for (size_t i = 0; i < n; i++) ord[i] = (uint32_t)i;
+            std::sort(ord.begin(), ord.end(), [&](uint32_t x, uint32_t y) { return memcmp(d + (size_t)x * esize, d + (size_t)y * esize, esize) < 0; });
+            return ord;
+        };
+        std::vector<uint32_t> ord0 = order_of(before.data());
+        L = {kind, a.p, n, esize, nullptr, nullptr, "", 0, 0};
+        L.odata = before.data();
+        L.oord = &ord0;
+        igv_srand(seed);
+        igv_qsort(a.p, n, esize, qs_compar);
+        std::vector<int> k(n);
+        bool mixed = false;
+        for (size_t i = 0; i < n; i++)
+        {
+            const uint8_t *e = a.p + i * esize;
+            k[i] = e[0];
+            if (!elem_intact(e, esize)) mixed = true;
+        }
+        if (mixed) o.fail("an element is a mixture of bytes of different elements");
+        if (!L.bad.empty()) o.fail(L.bad);
+        for (size_t i = 0; i + 1 < n; i++)
+            if (cmp_keys(kind, k[i + 1], k[i]) < 0)
+            {
+                o.fail("not ordered at index " + std::to_string(i));
+                break;
+            }
+        o.result = std::to_string(n) + " " + canon_rle(kind, k);
+        {
+            std::vector<uint32_t> ord1 = order_of(a.p);
+            for (size_t i = 0; i < n; i++)
+                if (memcmp(before.data() + (size_t)ord0[i] * esize, a.p + (size_t)ord1[i] * esize, esize))
+                {
+                    o.fail("result is not a permutation of the input");
+                    break;
+                }
+        }
+        o.tag(n >= 300000 ? "nmemb>=300000" : n >= 65536 ? "nmemb>=65536" : n >= 256 ? "nmemb>=256" : "generated");
+        if (n * esize >= 300 * 1024) o.tag("array>=300KiB");
+        if (kind >= 5) o.tag(kind == 5 ? "cmp-large-classes" : "cmp-partial-key");
+        return;
+    }
+    if (op == "qsr")
+    {
+        // qsr <esize> <seed> <kind,kind,...> <k0,k1,...>: ONE array sorted again and again with the
+        // comparator changed between the calls (rand() keeps running), then searched with bsearch
+        unsigned esize = atoi(w[1].c_str());
+        unsigned seed = (unsigned)strtoul(w[2].c_str(), 0, 10);
+        std::vector<int> kinds = ints(w[3]), keys = ints(w[4]);
+        size_t n = keys.size();
+        exact_buf a(n * esize);
+        std::vector<bytes> orig;
+        for (size_t i = 0; i < n; i++)
+        {
+            put_elem(a.p + i * esize, esize, keys[i], (unsigned)i);
+            orig.emplace_back(a.p + i * esize, a.p + (i + 1) * esize);
+        }
+        std::vector<bytes> s1 = orig;
+        std::sort(s1.begin(), s1.end());
+        igv_srand(seed);
+        std::string r;
+        int kind = 0;
+        for (int kd : kinds)
+        {
+            kind = kd;
+            L = {kind, a.p, n, esize, nullptr, &orig, "", 0, 0};
+            igv_qsort(a.p, n, esize, qs_compar);
+            std::vector<bytes> now;
+            std::vector<std::pair<int, int>> el;
+            for (size_t i = 0; i < n; i++)
+            {
+                const uint8_t *e = a.p + i * esize;
+                now.emplace_back(e, e + esize);
+                el.emplace_back(e[0], esize > 1 ? e[1] : 0);
+            }
+            if (!L.bad.empty()) o.fail(L.bad);
+            for (size_t i = 0; i + 1 < n; i++)
+                if (cmp_keys(kind, now[i + 1][0], now[i][0]) < 0) { o.fail("call with comparator " + std::to_string(kind) + ": not ordered at index " + std::to_string(i)); break; }
+            std::sort(now.begin(), now.end());
+            if (now != s1) o.fail("call with comparator " + std::to_string(kind) + ": result is not a permutation of the input");
+            r += (r.empty() ? "" : "|") + canon_runs(kind, el, esize > 1);
+        }
+        // bsearch on what the last qsort left (theorem bsearch_after_qsort): every key 0..max+1
+        std::string f;
+        int mx = 0;
+        for (int k : keys) mx = std::max(mx, k);
+        for (int key = 0; key <= mx + 1 && !kinds.empty(); key++)
+        {
+            exact_buf kb(sizeof(int));
+            memcpy(kb.p, &key, sizeof key);
+            L = {kind, a.p, n, esize, kb.p, nullptr, "", 0, 0};
+            const uint8_t *q = (const uint8_t *)igv_bsearch(kb.p, a.p, n, esize, bs_compar);
+            bool exists = false;
+            for (int k : keys)
+                if (cmp_keys(kind, key, k) == 0) exists = true;
+            if (!L.bad.empty()) o.fail(L.bad);
+            if (q && !in_array(q)) { o.fail("bsearch after qsort: pointer outside the array"); f += "?"; continue; }
+            if ((q != 0) != exists) o.fail("bsearch after qsort: key " + std::to_string(key) + (exists ? " exists but NULL was returned" : " does not exist but an element was returned"));
+            if (q && cmp_keys(kind, key, q[0]) != 0) o.fail("bsearch after qsort: returned element does not compare equal");
+            f += q ? "y" : "n";
+        }
+        o.result = r + " " + (f.empty() ? "-" : f);
+        o.tag("resorted-with-other-comparator");
+        return;
+    }
+    if (op == "atL")
+    {
+        // atL <l|i|ll> <prefix> <unit> <count> <tail>: long text for atol / atoi / atoll (representable values)
+        bytes t = unhex(w[2]), unit = unhex(w[3]), tail = unhex(w[5]);
+        size_t cnt = strtoul(w[4].c_str(), 0, 10);
+        for (size_t i = 0; i < cnt; i++) t.insert(t.end(), unit.begin(), unit.end());
+        t.insert(t.end(), tail.begin(), tail.end());
+        bytes z = t;
+        z.push_back(0);
+        exact_buf b(z);
+        const char *s = (const char *)b.p;
+        parsed p = ref_parse(t, 10);
+        uint64_t v = w[1] == "l" ? (uint64_t)igv_atol(s) : w[1] == "i" ? (uint64_t)(int64_t)igv_atoi(s) : (uint64_t)igv_strtoll(s, 0, 10);
+        errno = 0;
+        o.result = hexn(v, 16);
+        if (v != ref_signed(p)) o.fail("ISO 7.22.1.2: expected " + hexn(ref_signed(p), 16));
+        o.tag(t.size() >= 300 * 1024 ? "text>=300KiB" : "text-long");
+        return;
+    }
+    if (op == "stx")
+    {
+        // stx <fn> <base> <hextext>: a base outside {0, 2..36}.  ISO 7.22.1.4 does not define the call
+        // (POSIX: EINVAL); nothing about the value is compared.  Observed: the call returns, reads
+        // nothing outside the string (ASan), and an end pointer it stores lies inside the string.
+        const std::string &fn = w[1];
+        int base = atoi(w[2].c_str());
+        bytes t = unhex(w[3]);
+        bytes z = t;
+        z.push_back(0);
+        exact_buf b(z);
+        const char *s = (const char *)b.p;
+        char *end = (char *)s;
+        errno = 0;
+        if (fn == "l") igv_strtol(s, &end, base);
+        else if (fn == "ul") igv_strtoul(s, &end, base);
+        else if (fn == "ll") igv_strtoll(s, &end, base);
+        else if (fn == "ull") igv_strtoull(s, &end, base);
+        else if (fn == "imax") igv_strtoimax(s, &end, base);
+        else if (fn == "umax") igv_strtoumax(s, &end, base);
+        else if (fn == "q") igv_strtoq(s, &end, base);
+        else igv_strtouq(s, &end, base);
+        errno = 0;
+        o.result = "returns";
+        if (end < s || end > s + t.size()) o.fail("end pointer outside the string for base " + std::to_string(base));
+        o.tag("base-outside-iso");
+        return;
+    }
+    if (op == "consts")
+    {
+        // what the compiled code contains, against what the model embeds
+        // rand.c's state: only bits 0..31 of an UNSIGNED object influence the sequence (theorem
+        // rand_state_width_irrelevant), so any unsigned type of >= 32 bits is the same generator
+        size_t rb = 8 * igv_rand_state_size();
+        o.result = (rb >= 32 && igv_rand_state_unsigned() ? std::string("rand-state>=32u") : "rand-state " + std::to_string(rb) + (igv_rand_state_unsigned() ? "u" : "s")) + " ERANGE " + std::to_string(igv_erange()) + " EINVAL " + std::to_string(igv_einval());
+        return;
+    }
+    if (op == "ctype")
+    {
+        // classification the shim was compiled with, for every value of a signed / unsigned char
+        std::string r;
+        for (int c = -128; c < 256; c++) r += hexn((uint64_t)igv_ctype_bits(c), 2);
+        o.result = r;
+        return;
+    }
+    if (op == "premain")
+    {
+        o.result = g_premain;
+        if (g_premain_bad) o.fail(g_premain_bad);
+        o.tag("before-main");
         return;
     }
     o.result = "bad-op";
@@ -986,6 +1396,194 @@ static void gen_bounds(rng &r, bool th)
         }
 }
 
+// ------------------------------------------------------------ round 3
+// rand.c transcribed for the GENERATOR only (to build arrays that are adversarial for the pivot
+// sequence of a given seed); if rand.c changes, those arrays merely stop being adversarial
+static int gen_rand(uint64_t &sd)
+{
+    sd = (uint32_t)(sd * 16546134871ull + 513585871ull) % 204814687u;
+    return (int)(uint32_t)sd >> 1;
+}
+// an array on which, with the pivots of srand(seed), every partition step picks the unique minimum of
+// its sub-array: one side of every partition is empty, the recursion is nmemb - 3 calls deep
+// (qsort_recursion_depth: the bound nmemb + 1 is of the right order) - as far as one key byte allows
+static std::vector<int> adversarial(size_t n, unsigned seed)
+{
+    uint64_t sd = seed;
+    std::vector<int> val(n, -1);
+    std::vector<size_t> pos(n);
+    for (size_t i = 0; i < n; i++) pos[i] = i;
+    size_t lo = 0;
+    int level = 0;
+    while (n - lo >= 4 && level < 250)
+    {
+        size_t p = lo + (size_t)gen_rand(sd) % (n - lo);
+        val[pos[p]] = level++;
+        std::swap(pos[lo], pos[p]);
+        lo++;
+    }
+    for (size_t i = 0; i < n; i++)
+        if (val[i] < 0) val[i] = level + (int)(i % 5);
+    return val;
+}
+static void order_by_cmp(std::vector<int> &v, int kind, rng &r)
+{
+    for (size_t i = v.size(); i > 1; i--) std::swap(v[i - 1], v[r.below(i)]);
+    std::stable_sort(v.begin(), v.end(), [&](int a, int b) { return cmp_keys(kind, a, b) < 0; });
+}
+
+static void gen_round3(rng &r, bool th)
+{
+    puts("consts");
+    puts("ctype");
+    // (the descriptive word makes the line longer than the small direct ops: bin/check replays the shortest failing op first)
+    puts("premain strtol,strtoull,rand,qsort(9x3),bsearch-called-from-a-constructor-with-init_priority(101)-before-main");
+    // ---- strto*: state kept between calls?  Consecutive calls of ONE function with the sign and the
+    // magnitude alternating around the limits (a cache keyed by the base alone would mix the limits of
+    // the two signs), then the same text through all eight functions, base by base.
+    {
+        const u128 SMAX = (u128)INT64_MAX, UMAX = (u128)UINT64_MAX;
+        for (int f = 0; f < 8; f++)
+            for (int base : {10, 16, 8, 36, 2, 3, 0, 7, 35})
+            {
+                int eb = base ? base : 10;
+                const std::pair<const char *, u128> seq[] = {{"-", 1}, {"", SMAX + 1}, {"-", SMAX + 1}, {"", SMAX}, {"-", SMAX + 2}, {"+", UMAX}, {"-", UMAX}, {"", UMAX + 1}, {"-", 0}, {"", SMAX + 1}, {"-", SMAX + 1}};
+                for (auto &q : seq) st(FNS[f], base, std::string(q.first) + render(q.second, eb, (int)r.below(3), r));
+            }
+        for (int bi = 0; bi < 36; bi++)
+        {
+            int base = BASES[bi], eb = base ? base : 10;
+            for (int f = 0; f < 8; f++) st(FNS[f], base, "-" + render(1 + r.below(9), eb, 0, r));
+            for (int f = 0; f < 8; f++) st(FNS[f], base, render(SMAX + 1, eb, 0, r));
+            for (int f = 7; f >= 0; f--) st(FNS[f], base, "-" + render(SMAX + 1, eb, 1, r));
+            for (int f = 0; f < 8; f++) st(FNS[f], base, render(UMAX, eb, 0, r) + (r.chance(50) ? "" : " "));
+        }
+        for (int f = 0; f < 8; f++)
+            for (const char *t : {"+ 1", "- 1", "+", "-0x", "-0xg", "+0x", "0x", "0xx", "\v\f 0x1", "\v\f-0X", "0x 1", "-0", "+0", "-00x1", "0x-1", "\x1f" "1", "\x0e" "1", "\x08" "1"})
+                for (int base : {0, 16, 10})
+                    st(FNS[f], base, t);
+    }
+    // ---- texts of >= 300 KiB (the loops are linear)
+    {
+        unsigned rot = (unsigned)r.below(8);
+        for (int k = 0; k < (th ? 8 : 3); k++)
+            for (int f = 0; f < 8; f++)
+            {
+                const char *fn = FNS[f];
+                switch ((f + rot + k) % 4)
+                {
+                case 0: printf("stL %s 10 %s %s %u %s\n", fn, hex(std::string(k & 1 ? "-" : "")).c_str(), hex(std::string("1")).c_str(), 307200u + (unsigned)r.below(9), hex(std::string("x")).c_str()); break;
+                case 1: printf("stL %s 16 %s %s %u %s\n", fn, hex(std::string("-0x")).c_str(), hex(std::string("0")).c_str(), 307200u, hex(std::string("7fg")).c_str()); break;
+                case 2: printf("stL %s 0 - %s %u %s\n", fn, hex(std::string(" \t\n\v\f\r")).c_str(), 51200u, hex(std::string("+017x")).c_str()); break;
+                default: printf("stL %s 36 %s %s %u -\n", fn, hex(std::string(" ")).c_str(), hex(std::string("zZ9")).c_str(), 102400u + (unsigned)r.below(3)); break;
+                }
+            }
+    }
+    // ---- bases outside {0, 2..36}: ISO leaves the call undefined; only "returns, end pointer inside".
+    // (base -1 is not generated: strtoll/strtoq compute LLONG_MIN % base for a negative text, which traps.)
+    for (int f = 0; f < 8; f++)
+        for (int base : {1, 37, 38, 64, 100, 255, 256, 257, 65536, 65546, -2, -10, -36, INT_MAX, INT_MIN})
+            for (const char *t : {"", "0", "10", "-7", "zz", " +0x1f", "00000", "-1Zz9"})
+                printf("stx %s %d %s\n", FNS[f], base, hex(std::string(t)).c_str());
+    // ---- qsort: comparators with large classes (5) / on a part of the key (6)
+    for (int rep = 0; rep < (th ? 6 : 2); rep++)
+        for (int n = 0; n <= 40; n++)
+            for (int kind : {5, 6})
+            {
+                std::vector<int> v(n);
+                int m = (int)r.pick(std::vector<int>{256, 256, 32, 17, 64});
+                for (auto &x : v) x = (int)r.below(m);
+                if (r.chance(25)) order_by_cmp(v, kind, r);
+                printf("qs %u %d %u %s\n", esz(r), kind, (unsigned)r.next(), join(v).c_str());
+            }
+    // every element size 1..64 (the VLAs temp[size], key[size])
+    for (unsigned e = 1; e <= 64; e++)
+        for (int n : {2, 3, 4, 5, 9, 20})
+        {
+            std::vector<int> v(n);
+            int m = (int)r.pick(std::vector<int>{2, 3, 6, 256});
+            for (auto &x : v) x = (int)r.below(m);
+            printf("qs %u %d %u %s\n", e, (int)r.below(7), (unsigned)r.next(), join(v).c_str());
+        }
+    // adversarial for the pivot sequence: recursion as deep as the array is long
+    for (size_t n : {8u, 33u, 100u, 250u, 256u})
+        for (int rep = 0; rep < (th ? 4 : 1); rep++)
+        {
+            unsigned seed = (unsigned)r.next();
+            printf("qs %u 0 %u %s\n", (unsigned)r.pick(std::vector<unsigned>{2, 4, 24, 40}), seed, join(adversarial(n, seed)).c_str());
+        }
+    {
+        unsigned seed = (unsigned)r.next();
+        printf("qs 1 0 %u %s\n", seed, join(adversarial(600, seed)).c_str());
+    }
+    // generated arrays: boundary lengths, long arrays (the model is executed up to 600 elements,
+    // beyond that the driver prints the ordered key sequence the theorems prescribe)
+    {
+        static const int kinds[7] = {0, 1, 5, 6, 2, 4, 3};
+        unsigned rot = 0;
+        for (size_t n : {0u, 1u, 3u, 4u, 5u, 31u, 100u, 255u, 256u, 257u, 400u, 600u})
+            for (unsigned shape = 0; shape < 5; shape++)
+                printf("qsg %u %d %u %zu %u %u\n", esz(r), kinds[rot++ % 7], (unsigned)r.next(), n, shape, (unsigned)r.pick(std::vector<unsigned>{2, 7, 256, 256}));
+        for (size_t n : {601u, 4095u, 4096u, 5000u, 65535u, 65536u, 65537u})
+            for (unsigned shape = 0; shape < (n < 60000 || th ? 5u : 2u); shape++)
+                printf("qsg %u %d %u %zu %u %u\n", n > 60000 ? (unsigned)r.pick(std::vector<unsigned>{1, 2, 5}) : esz(r), kinds[rot++ % 7], (unsigned)r.next(), n, shape, (unsigned)r.pick(std::vector<unsigned>{3, 256, 256}));
+        printf("qsg 4 0 %u 300000 0 256\n", (unsigned)r.next());
+        // (random keys only at this length: with 256 distinct keys a structured shape costs a
+        // deterministic-pivot quicksort 256 x nmemb comparisons - legitimate, but beyond the per-op time limit)
+        printf("qsg 1 %d %u 307200 0 256\n", kinds[r.below(6)], (unsigned)r.next());
+        if (th)
+        {
+            printf("qsg 2 1 %u 500000 0 256\n", (unsigned)r.next());
+            printf("qsg 3 5 %u 300001 0 200\n", (unsigned)r.next());
+        }
+    }
+    // ---- bsearch / bounds with the new comparators, and with the key object inside the array
+    for (int rep = 0; rep < (th ? 4 : 1); rep++)
+        for (int n = 0; n <= 40; n++)
+            for (int kind : {5, 6})
+            {
+                std::vector<int> v(n);
+                int m = (int)r.pick(std::vector<int>{250, 250, 40, 17});
+                for (auto &x : v) x = (int)r.below(m);
+                order_by_cmp(v, kind, r);
+                unsigned e = esz(r);
+                for (int key = 0; key < m + 3; key += (th || m < 50 ? 1 : 1 + (int)r.below(7)))
+                {
+                    printf("bs %u %d %d %s\n", e, kind, key, join(v).c_str());
+                    printf("ub %u %d %d %s\nlb %u %d %d %s\n", e, kind, key, join(v).c_str(), e, kind, key, join(v).c_str());
+                }
+            }
+    for (int rep = 0; rep < (th ? 6 : 2); rep++)
+        for (int n = 1; n <= 24; n++)
+        {
+            int kind = (int)r.below(7);
+            std::vector<int> v(n);
+            int m = (int)r.pick(std::vector<int>{1, 2, 3, 5, 40, 250});
+            for (auto &x : v) x = (int)r.below(m);
+            order_by_cmp(v, kind, r);
+            unsigned e = esz(r);
+            for (int k = 0; k < n; k++) printf("bsa %u %d %d %s\n", e, kind, k, join(v).c_str());
+        }
+    // ---- one array, several qsort calls with the comparator changed in between, then bsearch
+    for (int rep = 0; rep < (th ? 40 : 8); rep++)
+        for (int n : {0, 1, 3, 4, 7, 12, 30})
+        {
+            std::vector<int> v(n), kd(1 + r.below(4));
+            int m = (int)r.pick(std::vector<int>{2, 5, 40, 256});
+            for (auto &x : v) x = (int)r.below(m);
+            for (auto &x : kd) x = (int)r.below(7);
+            printf("qsr %u %u %s %s\n", esz(r), (unsigned)r.next(), join(kd).c_str(), join(v).c_str());
+        }
+    // ---- atol / atoi / atoll on >= 300 KiB
+    for (const char *fn : {"l", "i", "ll"})
+    {
+        printf("atL %s - %s 307200 %s\n", fn, hex(std::string(" ")).c_str(), hex(std::string("-123x")).c_str());
+        printf("atL %s %s %s 307200 %s\n", fn, hex(std::string("\t+")).c_str(), hex(std::string("0")).c_str(), hex(std::string("2147483647 ")).c_str());
+    }
+    // rand / rand_r: long runs on one state
+    printf("rnd 1 300\nrnd 0 300\nrnd 204814686 50\nrnd 204814687 50\nrndr 204814687 50\n");
+}
+
 static void gen(rng &r, const std::string &tier)
 {
     bool th = tier == "thorough";
@@ -994,6 +1592,7 @@ static void gen(rng &r, const std::string &tier)
     gen_qsort(r, th);
     gen_bsearch(r, th);
     gen_bounds(r, th);
+    gen_round3(r, th);
 }
 
 int main(int argc, char **argv) { return main_(argc, argv, gen, run_op); }
